@@ -806,7 +806,9 @@ class Inliner:
         """the helper as one expression of its parameters, if it is expression-like."""
         from .symex import facts_for
         body = _strip_doc(callee.node.body)
-        simple = all(isinstance(s, (ast.Assign, ast.AnnAssign, ast.Assert, ast.Expr)) and not (isinstance(s, ast.Assign) and not all(isinstance(t, ast.Name) for t in s.targets)) for s in body[:-1])
+        def _plain_target(t):
+            return isinstance(t, ast.Name) or (isinstance(t, (ast.Tuple, ast.List)) and all(isinstance(e, ast.Name) for e in t.elts))
+        simple = all(isinstance(s, (ast.Assign, ast.AnnAssign, ast.Assert, ast.Expr)) and not (isinstance(s, ast.Assign) and not all(_plain_target(t) for t in s.targets)) for s in body[:-1])
         if not body:
             return None
         ff = facts_for(callee)
